@@ -610,6 +610,48 @@ Proof.
   rewrite (map_site_independent A f rs2 total init ops2 H2 Hl S2). reflexivity.
 Qed.
 
+(** [is_tiling] is sound: ranges that pass it are an exact partition. *)
+Lemma tiles_from_spec rs : forall cur hi, cur <= hi -> tiles_from rs cur hi = true ->
+  (forall r i, In r rs -> in_range r i -> cur <= i < hi) /\
+  (forall i, cur <= i < hi -> exists r, In r rs /\ in_range r i) /\
+  (forall j k i, (j < length rs)%nat -> (k < length rs)%nat ->
+     in_range (nth j rs (0, 0)) i -> in_range (nth k rs (0, 0)) i -> j = k).
+Proof.
+  induction rs as [|r tl IH]; intros cur hi Hle H; cbn [tiles_from] in H.
+  - apply Z.eqb_eq in H. subst. split; [intros r i []|]. split; [intros i Hi; lia|cbn; intros; lia].
+  - destruct (snd r <=? fst r) eqn:Eemp.
+    + apply Z.leb_le in Eemp. destruct (IH cur hi Hle H) as (A & B & C). split; [|split].
+      * intros r0 i [<-|Hin] Hr; [unfold in_range in Hr; lia|exact (A r0 i Hin Hr)].
+      * intros i Hi. destruct (B i Hi) as (r0 & Hin & Hr). exists r0. split; [now right|exact Hr].
+      * intros [|j] [|k] i Hj Hk Hrj Hrk; cbn [nth length] in *; try reflexivity;
+          try (unfold in_range in *; lia). f_equal. apply (C j k i); try lia; assumption.
+    + apply Z.leb_gt in Eemp. apply andb_true_iff in H. destruct H as [H H3]. apply andb_true_iff in H. destruct H as [H1 H2].
+      apply Z.eqb_eq in H1. apply Z.leb_le in H2. destruct (IH (snd r) hi H2 H3) as (A & B & C). split; [|split].
+      * intros r0 i [<-|Hin] Hr; [unfold in_range in Hr; lia|pose proof (A r0 i Hin Hr); lia].
+      * intros i Hi. destruct (Z_lt_le_dec i (snd r)) as [Hlt|Hge].
+        -- exists r. split; [now left|unfold in_range; lia].
+        -- destruct (B i ltac:(lia)) as (r0 & Hin & Hr). exists r0. split; [now right|exact Hr].
+      * intros [|j] [|k] i Hj Hk Hrj Hrk; cbn [nth length] in *; try reflexivity.
+        -- exfalso. assert (Hin : In (nth k tl (0, 0)) tl) by (apply nth_In; lia).
+           pose proof (A _ i Hin Hrk). unfold in_range in Hrj. lia.
+        -- exfalso. assert (Hin : In (nth j tl (0, 0)) tl) by (apply nth_In; lia).
+           pose proof (A _ i Hin Hrj). unfold in_range in Hrk. lia.
+        -- f_equal. apply (C j k i); try lia; assumption.
+Qed.
+
+Theorem is_tiling_sound : forall rs lo hi, is_tiling rs lo hi = true -> exact_partition rs lo hi.
+Proof.
+  intros rs lo hi H. unfold is_tiling in H. apply andb_true_iff in H. destruct H as [H1 H2]. apply Z.leb_le in H1.
+  exact (tiles_from_spec rs lo hi H1 H2).
+Qed.
+
+(** and the modelled formulas pass it (so the check is not stricter than the models) *)
+Example tiling_examples :
+  is_tiling (ranges_ceil 7 10) 0 10 = true /\ is_tiling (ranges_prop 5 176) 0 176 = true /\
+  is_tiling (ranges_argb_to_nrgba 5 3) 0 3 = true /\ is_tiling (ranges_hashchain 4 160000) 1 159999 = true /\
+  is_tiling (ranges_compute_alphas 7 4 10) 0 10 = true /\ is_tiling [(0, 3); (4, 10)] 0 10 = false.
+Proof. vm_compute. repeat split. Qed.
+
 (** The hypotheses are satisfiable by non-trivial values: 5 workers over 13 tile
     rows (remainder, one clipped range), writes interleaved in reverse spawn order. *)
 Example ranges_ceil_5_13 : ranges_ceil 5 13 = [(0, 3); (3, 6); (6, 9); (9, 12); (12, 13)].
